@@ -300,7 +300,10 @@ func (ir *ifdReader) fastRead(n int) (buf []byte, err error) {
 		ir.po += uint32(n)
 		return
 	}
-	if n, err = ir.reader.Read(ir.buffer.buf[:n]); err != nil {
+	if n > bufferLength {
+		return nil, imagetype.ErrDataLength
+	}
+	if n, err = io.ReadFull(ir.reader, ir.buffer.buf[:n]); err != nil {
 		if ir.logLevelError() {
 			ir.logError(err).Msg("Read error")
 		}
